@@ -936,6 +936,37 @@ package kafka
 //@   trusted sorts the topic list of the metadata response in place
 //@ func sortMetadataPartitions
 //@   trusted sorts a partition list in place
+// Cache filtering: topic-filtered metadata served from the cache equals what the brokers answered at the last refresh.
+// The cached topic list is sorted by name (update() sorts it before publishing the state); a requested topic that is in
+// the cache is answered with exactly the cached entry, one that is not with an UnknownTopicOrPartition placeholder.
+//@ spec topicsSorted(topics any) bool
+//@   macro
+//@   def forall a, b :: 0 <= a && a < b && b < len(topics) ==> topics[a].Name < topics[b].Name
+//@ func findMetadataTopic
+//@   option strorder
+//@   assume sort.Search over a name-sorted slice with the predicate topics[i].Name >= topicName returns the least index whose name is not below topicName (the predicate closure is read, not verified)
+//@   assume string order: `<` on strings is the order of an uninterpreted rank of the content (an order embedding of the lexicographic order: equal ranks iff equal contents; integer valued)
+//@   requires topicsSorted(topics)
+//@   callsite sort.Search ensures 0 <= result && result <= len(topics) && (forall k :: 0 <= k && k < result ==> topics[k].Name < topicName) && (result < len(topics) ==> topics[result].Name >= topicName)
+//@   ensures result1 ==> 0 <= result0 && result0 < len(topics) && streq(topics[result0].Name, topicName)
+//@   ensures (exists j :: 0 <= j && j < len(topics) && streq(topics[j].Name, topicName)) ==> result1
+//@ spec sameTopic(a any, b any) bool
+//@   macro
+//@   def streq(a.Name, b.Name) && a.ErrorCode == b.ErrorCode && a.IsInternal == b.IsInternal && same(a.Partitions, b.Partitions) && a.TopicAuthorizedOperations == b.TopicAuthorizedOperations
+//@ func filterMetadataResponse
+//@   option strorder
+//@   requires req != nil && res != nil && topicsSorted(res.Topics)
+//@   modifies nothing
+//@   ensures result != nil && fresh(result)
+//@   ensures isnil(req.TopicNames) ==> same(result.Topics, res.Topics)
+//@   ensures !isnil(req.TopicNames) ==> len(result.Topics) == len(req.TopicNames)
+//@   ensures !isnil(req.TopicNames) ==> forall i, j :: 0 <= i && i < len(req.TopicNames) && 0 <= j && j < len(res.Topics) && streq(res.Topics[j].Name, req.TopicNames[i]) ==> sameTopic(result.Topics[i], res.Topics[j])
+//@   ensures !isnil(req.TopicNames) ==> forall i :: 0 <= i && i < len(req.TopicNames) && !(exists j :: 0 <= j && j < len(res.Topics) && streq(res.Topics[j].Name, req.TopicNames[i])) ==> result.Topics[i].ErrorCode == 3 && same(result.Topics[i].Name, req.TopicNames[i]) && len(result.Topics[i].Partitions) == 0
+//@   loop 0 modifies elems(ret.Topics)
+//@   loop 0 invariant topicsSorted(res.Topics)
+//@   loop 0 invariant !isnil(req.TopicNames) && len(ret.Topics) == len(req.TopicNames) && fresh(ret.Topics) && -1 <= rangeindex && rangeindex < len(req.TopicNames)
+//@   loop 0 invariant forall i, j :: 0 <= i && i <= rangeindex && 0 <= j && j < len(res.Topics) && streq(res.Topics[j].Name, req.TopicNames[i]) ==> sameTopic(ret.Topics[i], res.Topics[j])
+//@   loop 0 invariant forall i :: 0 <= i && i <= rangeindex && !(exists j :: 0 <= j && j < len(res.Topics) && streq(res.Topics[j].Name, req.TopicNames[i])) ==> ret.Topics[i].ErrorCode == 3 && same(ret.Topics[i].Name, req.TopicNames[i]) && len(ret.Topics[i].Partitions) == 0
 //@ func makeLayout
 //@   trusted builds the protocol.Cluster view of a metadata response (fresh maps)
 //@   ensures result.Brokers != nil
